@@ -18,7 +18,9 @@ SHRINK = False          # a case is (scenario, schedule); schedules are not line
 CASE_TIMEOUT = 5.0
 MODEL_CASE_TIMEOUT = 5.0
 RULE = ("scenarios = channel (4 writer-lock kinds x 3 reader modes x requested capacity 1..9 x 1..4 writers with scripts "
-        "of tagged messages that force wrap-around and FULL, one reader), array blocking queue (capacity 1..4, 1..3 "
+        "of tagged messages that force wrap-around and FULL, one reader), channel by RAW flags value ('chanflags': every one of the 256 flag "
+        "bytes = 16 writer-lock selectors x 16 reader selectors incl. the invalid / out-of-range ones, plus flags with higher bits set, "
+        "each with 2..3 concurrent writers -- one writer when the selector is WRITE_SINGLE -- capacity 3..8, messages that wrap), array blocking queue (capacity 1..4, 1..3 "
         "producers, 1..3 consumers) and double buffer (capacity 1..4, blocking and non-blocking, 1..3 writers), each "
         "under seeded random schedules (context-switch density 20/50/80/95 %, weak-CAS spurious failure 0/30 %, condvar "
         "spurious wake-up 0/20 %, futex wait interrupted (EINTR) / spuriously woken 0/20/40 % in the sync-reader and synclock-writer scenarios), hand-written list schedules and model-guided list schedules (walks of the extracted model that reach the proofs' case-split windows), run on the real code under the deterministic "
@@ -38,7 +40,9 @@ EVIDENCE_NOTES = [
     "array blocking queue and double buffer carry views as well (mutex stamp, slot and payload versions, ghost uncovered-read counters): abq_payload_visible, dbuf_payload_visible (no uncovered plain read; the item / batch entry about to be consumed was put / written and its payload write is in the consumer's view) and dbuf_full_only_if_full (a write is refused or put to sleep only when the back buffer holds capacity items, the reader sleeps only when it is empty; ghost check computed from the histories) are theorems for every schedule, any number of threads, any capacity",
     "model-guided schedules (DESIGN.md 4.3): the guide mode of ocaml/c01_driver.ml explores the extracted channel model with biased random walks and emits the walks that reach the proofs' case-split windows (w1 reader commits read_cursor between a writer's cursor load and its full check / slot store; w2 reader loads write_cursor between slot store and publication; w3 cached read cursor refreshed in busy mode; w4 publication wraps write_cursor to 0 leaving capacity-2 unread; w5 a writer publishes between the reader's check and its futex sleep) as 'sched list' schedules; the generator adds them in both tiers and the tally reports, from the IMPLEMENTATION traces, how many guided schedules went through each window (guided_window_w1..w5, guided_target_hit) next to the counts over all schedules (window_w1..w5)",
     "futex waits: the model's fwait steps (reader on write_cursor, writers on the synclock) have the choices 'interrupted' (EINTR, trace c = 2) and 'spurious wake-up' (c = 3) besides sleeping; all theorems quantify over them; the acceptor maps c = 2 / 3 to these choices; two thirds of the sync-reader / synclock-writer scenarios use them and two list-schedule corpus cases force them on the first would-block waits",
-    "muggle_channel_init is tied to the model by RE-EXTRACTION FROM THE EXECUTED CODE (the alternative to symbolic evaluation of the AST): harness/drivers/c01_dispatch.c, compiled from the working tree on every run, runs muggle_channel_init for every flags value in [0, 512) and for the requested capacities 0..1025 (+ requests that do not fit muggle_sync_t) and calls muggle_next_pow_of_2 around every power of two; the installed fn_lock / fn_unlock / fn_write / fn_wake / fn_read are resolved to the static functions' names with nm; the tables go into coq/gen/Params_C01.v; chan_dispatch_matches_model (complete sweep over the 512 flag values by vm_compute: return value, normalised flags, init_flags, created mutexes / condvar, five functions = the model's mode table flag_wk / flag_rm), chan_capacity_matches_model (refusals, capacity, initial cursors = model's initial state) and chan_capacity_rounding (for ALL requests: round_cap is the least power of two >= the request) are obligations; a behaviour-preserving restructuring of init (helpers, if-chains) leaves the tables unchanged",
+    "muggle_channel_init is tied to the model by RE-EXTRACTION FROM THE EXECUTED CODE (the alternative to symbolic evaluation of the AST): harness/drivers/c01_dispatch.c, compiled from the working tree on every run, runs muggle_channel_init for every flags value in [0, 512) and for the requested capacities 0..1025 (+ requests that do not fit muggle_sync_t) and calls muggle_next_pow_of_2 around every power of two; the installed fn_lock / fn_unlock / fn_write / fn_wake / fn_read are resolved to the static functions' names with nm; the tables go into coq/gen/Params_C01.v; chan_dispatch_matches_model (complete sweep over the 512 flag values by vm_compute: return value, normalised flags, init_flags, created mutexes / condvar, five functions = the model's mode table flag_wk / flag_rm), chan_capacity_matches_model (refusals, capacity, initial cursors = model's initial state) and chan_capacity_rounding (for ALL requests: round_cap is the least power of two >= the request) and chan_dispatch_selects_flags_cfg (the installed functions are those of the configuration the flags theorems quantify over) are obligations; a behaviour-preserving restructuring of init (helpers, if-chains) leaves the tables unchanged",
+    "flags quantifier: besides the 12 named modes the scenarios hand the RAW flags integer to muggle_channel_init ('chanflags <flags> ...' in harness/drivers/c01_driver.c; the cells are named after what init created, the driver does not decode the flags); the extracted model runs mk_cfg_flags (the mode table flag_wk / flag_rm of coq/C01/Dispatch.v) for the same integer and must accept the trace, the monitor decodes the flags from the documented meaning in channel.h (selector 0..3 / 0x00..0x20, anything else = mutex) independently of both; the quick tier runs all 256 flag bytes (input_distribution: flag_bytes_covered_of_256, selector_pairs_with_2plus_writers_of_240 = every (writer selector != WRITE_SINGLE, reader selector) pair with >= 2 concurrent writers, out_of_range_writer_selector_2plus_writers, flags_with_higher_bits) and search() sweeps them again with 2..4 writers under dense context switching (6 schedules per byte) when an obligation or the correspondence broke; corpus/C01/flags-*.case pin selectors 7, 15 and 11 + reader selector 8.  Theorems (coq/C01/ProofsFlags.v): chan_flags_exactly_once_in_order / chan_flags_payload_visible = the delivery theorems for EVERY integer flags value with the usage hypothesis only when flags & 15 = 3; chan_flags_writers_excluded = any other writer selector (0, 1, 2, 4..15) is a real lock for any number of writers (not the no-op kind, at most one writer between fn_lock and fn_unlock, nobody inside while the lock word is free); chan_flag_byte_exhaustive = the mode table reads the low byte only, selects the no-op lock exactly for selector 3 and sends out-of-range selectors to the mutex; chan_dispatch_selects_flags_cfg = for each of the 512 re-extracted rows the functions the CODE installed are those of mk_cfg_flags' configuration and no selector other than 3 installs the no-op lock; Examples chan_flags_nonvacuous (flags 0x07, writer 2 stopped at the mutex while writer 1 is inside) and chan_flags_nonvacuous_busy (0x2f, three writers)",
+    "monitor: when the scheduler reports DEADLOCK / LIVELOCK in a channel scenario the first anomaly of the trace itself (cursor collision, FULL without full ring, wrong delivery, missing happens-before) is reported in front of the scheduler's verdict",
     "coverage: the random, the model-guided and the corpus scenario families each cover all 12 modes x requested capacities {1, 2, 3, 4, 8} in the quick tier (input_distribution: modes_x_caps_covered_<family>_of_60 = 60)",
     "not theorems: freedom from lost wake-ups (property C03) is covered by the monitor and trace acceptance only",
     "chan_mo_necessary (coq/C01/ProofsView.v): with the store of write_cursor relaxed the model delivers the slot's previous content (NULL) under a concrete schedule, with the code's orders the same schedule delivers the message",
@@ -62,6 +66,27 @@ def next_pow2(n):
     while c < n:
         c *= 2
     return c
+
+
+def flag_modes(flags):
+    """What a flags value of muggle_channel_init MEANS according to channel.h (the property's side,
+    independent of the Coq model and of channel.c): bits 0..3 select the writer lock (0 mutex, 1 sync,
+    2 spin, 3 single writer), bits 4..7 the reader mode (0 sync, 1 mutex, 2 busy); "if user set
+    invalid write / read flag, use mutex"; higher bits are not looked at."""
+    wk = {0: "mutex", 1: "sync", 2: "spin", 3: "single"}.get(flags & 0x0f, "mutex")
+    rm = {0x00: "sync", 0x10: "mutex", 0x20: "busy"}.get(flags & 0xf0, "mutex")
+    return wk, rm
+
+
+def chan_scen(words):
+    """Scenario words in the 'chan' layout (chan wk rm cap nread k..) for both channel families;
+    None for the other structures."""
+    if words and words[0] == "chan":
+        return list(words)
+    if words and words[0] == "chanflags":
+        wk, rm = flag_modes(int(words[1]))
+        return ["chan", wk, rm] + list(words[2:])
+    return None
 
 
 # ---------------------------------------------------------------------------
@@ -230,6 +255,37 @@ def _chan(name, wk, rm, cap, ks, sched, nread=None, maxtry=None):
     return V.Case(name, lines, {"scen": lines[0]})
 
 
+def _chanflags(name, flags, cap, ks, sched, nread=None, maxtry=None):
+    """The channel scenario with the RAW flags integer (valid, invalid and out-of-range selectors)."""
+    c = _chan(name, "x", "x", cap, ks, sched, nread, maxtry)
+    w = c.lines[0].split()
+    c.lines[0] = "chanflags %d %s" % (flags, " ".join(w[3:]))
+    c.meta["scen"] = c.lines[0]
+    return c
+
+
+def _flag_cases(rng, prefix, flag_list, reps, sticks, nws=(2, 3), search=False):
+    """For every flags value in flag_list: >= 2 concurrent writers (one when the writer selector is
+    WRITE_SINGLE, the documented usage), capacity > 2 so that messages flow, enough messages to wrap."""
+    out = []
+    for f in flag_list:
+        wk, rm = flag_modes(f)
+        for rep in range(reps):
+            nw = 1 if wk == "single" else rng.choice(list(nws))
+            cap = rng.choice([3, 4, 5, 8])
+            c2 = next_pow2(cap)
+            per = max(2, (c2 + 1 + nw - 1) // nw)
+            ks = [rng.range(per, per + 1) for _ in range(nw)]
+            spur = rng.choice([0, 30]) if wk == "sync" else 0
+            cvspur = rng.choice([0, 20]) if rm == "mutex" else 0
+            fut = ""
+            if (rm == "sync" or wk == "sync") and (search or rng.chance(1, 2)):
+                fut = " %d %d" % (rng.choice([0, 20]), rng.choice([0, 20]))
+            out.append(_chanflags("%s-%d-%d-%d" % (prefix, f, nw, rep), f, cap, ks,
+                                  "rand %d %d %d %d%s" % (rng.below(1 << 30), rng.choice(list(sticks)), spur, cvspur, fut)))
+    return out
+
+
 def _abq(name, cap, ks, cs, sched):
     lines = ["abq %d %d %s %s" % (cap, len(ks), " ".join(map(str, ks)), " ".join(map(str, cs))), "sched " + sched]
     return V.Case(name, lines, {"scen": lines[0]})
@@ -272,6 +328,12 @@ def corpus_cases(ctx):
     # double buffer: writers fill the back buffer, reader swaps; blocking and non-blocking
     out.append(_dbuf("corpus-dbuf-block", 2, 0, [3, 3], "list - " + " ".join(["1"] * 40 + ["2"] * 40 + ["0"] * 40)))
     out.append(_dbuf("corpus-dbuf-nonblock", 1, 1, [2, 2], "rand 22 80 0 20"))
+    # regression files (corpus/C01/*.case): out-of-range flag selectors with two writers, ...
+    import glob
+    for f in sorted(glob.glob(os.path.join(V.VERIF, "corpus", ID, "*.case"))):
+        c = V.Case.load(f)
+        c.meta["scen"] = c.lines[0]
+        out.append(c)
     return out
 
 
@@ -304,6 +366,13 @@ def generate(rng, tier):
                         cases.append(_chan("chan-%s-%s-%d-%d-%d" % (wk, rm, cap, nw, n), wk, rm, cap, ks,
                                            "rand %d %d %d %d%s" % (rng.below(1 << 30), stick, spur, cvspur, fut)))
                         n += 1
+    # every flags BYTE muggle_channel_init distinguishes (16 writer selectors x 16 reader selectors: the 12 valid
+    # combinations, the invalid ones that fall back to a mutex) with >= 2 concurrent writers, and flags with higher
+    # bits set (not looked at by init)
+    frng = rng.fork("flags")
+    cases += _flag_cases(frng, "flags", list(range(256)), 1 if tier == "quick" else 12, (20, 50, 80))
+    cases += _flag_cases(frng, "flagshi", [frng.below(256) + 256 * frng.range(1, 1 << 20) for _ in range(32 if tier == "quick" else 400)],
+                         1, (20, 50, 80))
     cases += _guided_cases(rng, tier)
     qreps = 60 if tier == "quick" else 1500
     for i in range(qreps):
@@ -388,8 +457,8 @@ def _guided_cases(rng, tier):
 
 def windows_of_trace(case, lines):
     """Which case-split windows the IMPLEMENTATION trace went through (independent of the model)."""
-    scen = case.lines[0].split()
-    if scen[0] != "chan":
+    scen = chan_scen(case.lines[0].split())
+    if scen is None:
         return set()
     rm, cap = scen[2], next_pow2(int(scen[3]))
     usable = max(0, cap - 2)
@@ -458,6 +527,9 @@ def search(rng, diverging, tier):
                          "rand %d %d %d %d %d %d" % (rng.below(1 << 30), rng.choice([10, 30, 50, 80, 95]),
                                                      rng.choice([0, 20, 50]), rng.choice([0, 30]),
                                                      rng.choice([0, 30]), rng.choice([0, 30]))))
+    # every flags byte with 2..4 concurrent writers under dense context switching: a writer-lock selector that no
+    # longer selects a lock shows as a lost / duplicated message
+    out += _flag_cases(rng, "search-flags", list(range(256)), 6, (10, 20, 30, 50), nws=(2, 3, 4), search=True)
     for i in range(1500):
         cap = rng.range(1, 4)
         ks = [rng.range(1, 4) for _ in range(rng.range(1, 3))]
@@ -514,14 +586,22 @@ def monitor(case, lines):
                 "found): a delivery without happens-before edge exists in the view model; see the model output")
     for ln in lines:
         if ln.startswith("DEADLOCK") or ln.startswith("LIVELOCK"):
-            return "scheduler reported %s" % ln
+            # a channel that lost or duplicated a message usually ends with the reader waiting for ever: name the
+            # first anomaly of the trace itself (cursor collision, wrong delivery, ...) before the scheduler's verdict
+            first = None
+            if scen[0] in ("chan", "chanflags") and lines[0].startswith("F init 0"):
+                try:
+                    first = _mon_chan(chan_scen(scen), case, lines, totals=False)
+                except Exception:
+                    first = None
+            return ("%s; then the scheduler reported %s" % (first, ln)) if first else "scheduler reported %s" % ln
     if not lines or not lines[0].startswith("F init 0"):
         return "init failed: %r" % (lines[0] if lines else None)
     hb = _mon_hb(lines)
     if hb:
         return hb
-    if scen[0] == "chan":
-        return _mon_chan(scen, case, lines)
+    if scen[0] in ("chan", "chanflags"):
+        return _mon_chan(chan_scen(scen), case, lines)
     if scen[0] == "abq":
         return _mon_abq(scen, lines)
     if scen[0] == "dbuf":
@@ -599,7 +679,7 @@ def _mon_hb(lines):
     return None
 
 
-def _mon_chan(scen, case, lines):
+def _mon_chan(scen, case, lines, totals=True):
     wk, rm, reqcap, nread = scen[1], scen[2], int(scen[3]), int(scen[4])
     ks = [int(x) for x in scen[5:]]
     cap = next_pow2(reqcap)
@@ -705,6 +785,8 @@ def _mon_chan(scen, case, lines):
                         pending_fld, v, None if pending_fld is None else pending_fld + 1000)
                 pending_fld = None
     # totals
+    if not totals:
+        return None
     if sorted(oks) != sorted(published):
         return "accepted messages %s differ from the publications %s" % (sorted(oks), sorted(published))
     if len(set(published)) != len(published):
@@ -893,11 +975,33 @@ def nontrivial_key(case, lines):
     return None
 
 
+_FCOVER = {}
+
+
 def tally(dist, case, lines):
-    scen = case.lines[0].split()
+    raw = case.lines[0].split()
+    scen = chan_scen(raw) or raw
+    if raw[0] == "chanflags":
+        # coverage of the flags values: distinct flag bytes run, and distinct (writer selector, reader selector)
+        # pairs run with >= 2 concurrent writers (240 = all pairs whose writer selector is not WRITE_SINGLE)
+        if dist.get("evaluated_chanflags", 0) == 0:
+            _FCOVER.clear()
+        f = int(raw[1])
+        nwr = len(raw) - 4
+        _FCOVER.setdefault("bytes", set()).add(f & 0xff)
+        if nwr >= 2:
+            _FCOVER.setdefault("pairs2", set()).add((f & 0x0f, (f >> 4) & 0x0f))
+            if (f & 0x0f) > 3:
+                dist["out_of_range_writer_selector_2plus_writers"] = dist.get("out_of_range_writer_selector_2plus_writers", 0) + 1
+        if f > 0xff:
+            dist["flags_with_higher_bits"] = dist.get("flags_with_higher_bits", 0) + 1
+        dist["flag_bytes_covered_of_256"] = len(_FCOVER.get("bytes", ()))
+        dist["selector_pairs_with_2plus_writers_of_240"] = len(_FCOVER.get("pairs2", ()))
+        dist["evaluated_chanflags"] = dist.get("evaluated_chanflags", 0) + 1
     if scen[0] == "chan":
-        fam = "guided" if case.name.startswith("guided-") else "corpus" if case.name.startswith("corpus-") else "random"
-        if int(scen[3]) in COVER_CAPS:
+        fam = ("flags" if raw[0] == "chanflags" else "guided" if case.name.startswith("guided-")
+               else "corpus" if case.name.startswith("corpus-") else "random")
+        if int(scen[3]) in COVER_CAPS and fam != "flags":
             # coverage of the 12 modes x requested capacities {1, 2, 3, 4, 8} per scenario family (60 = complete)
             if dist.get("evaluated_chan", 0) == 0:
                 _COVER.clear()
@@ -915,7 +1019,7 @@ def tally(dist, case, lines):
             dist["guided_targeted"] = dist.get("guided_targeted", 0) + 1
         if guided and case.meta.get("target") in windows_of_trace(case, lines):
             dist["guided_target_hit"] = dist.get("guided_target_hit", 0) + 1
-    k = scen[0] + ("-%s-%s" % (scen[1], scen[2]) if scen[0] == "chan" else "")
+    k = raw[0] + ("-%s-%s" % (scen[1], scen[2]) if scen[0] == "chan" else "")
     dist[k] = dist.get(k, 0) + 1
     dist["events"] = dist.get("events", 0) + sum(1 for ln in lines if ln.startswith("E "))
     for ln in lines:
